@@ -13,6 +13,7 @@ import (
 	"time"
 
 	"nrisim/sim"
+	"nrisim/simorder"
 )
 
 // Job is what the driver asks one child process to do.
@@ -139,6 +140,7 @@ type childSummary struct {
 	Violations []foundViolation  `json:"violations"`
 	WallS      float64           `json:"wall_s"`
 	GridDone   map[string]int    `json:"grid_done"`
+	FuncsHit   []int             `json:"funcs_hit"`
 	Rule       string            `json:"rule"`
 	Components map[string]string `json:"components"`
 }
@@ -356,6 +358,7 @@ func childExplore(t *testing.T, p *Property, job *Job) {
 	}
 	sum.Next = i
 	sum.Rule, sum.Components = p.Rule, p.Components
+	sum.FuncsHit = simorder.HitSet()
 	sum.Finished = i >= job.MaxRuns || time.Now().After(deadline)
 	for h := range hashes {
 		sum.Hashes = append(sum.Hashes, fmt.Sprintf("%x", h))
